@@ -144,6 +144,7 @@ type TypeInv struct {
 }
 
 type ContractSet struct {
+	Guards    map[string]string    // pkgpath.var -> name of the mutex (package-level variable) that guards it
 	TypeInvs  map[string]*TypeInv  // pkgpath.Type
 	Templates map[string]*Contract // pkg.Recv -> default contract of the methods of Recv
 	Pools     map[string]*PoolDirective
@@ -164,7 +165,7 @@ var langHdr = regexp.MustCompile(`^lang\s+([A-Za-z_][A-Za-z0-9_]*)\s*=\s*([a-z]+
 
 var poolHdr = regexp.MustCompile(`^pool\s+([A-Za-z_][A-Za-z0-9_]*)\s+(\S+)\s*:\s*(.*)$`)
 
-var clauseKeywords = []string{"usemethods", "typeinv", "noinv", "methods", "callsite", "func", "spec", "lemma", "lang", "pool", "interface", "implements", "let", "running", "assume", "requires", "ensures", "modifies", "loop", "use", "assert", "inline", "trusted", "pure"}
+var clauseKeywords = []string{"guarded", "usemethods", "typeinv", "noinv", "methods", "callsite", "func", "spec", "lemma", "lang", "pool", "interface", "implements", "let", "running", "assume", "requires", "ensures", "modifies", "loop", "use", "assert", "inline", "trusted", "pure"}
 
 func startsKeyword(s string) string {
 	for _, k := range clauseKeywords {
@@ -413,6 +414,18 @@ func (cs *ContractSet) parse(src, file, pkgPath string) {
 			return &Clause{Props: props, Text: text, Expr: e, Line: rc.line, File: file}
 		}
 		switch kw {
+		case "guarded":
+			// guarded <var> by <mutex>
+			f := strings.Fields(rest)
+			if len(f) != 3 || f[1] != "by" {
+				cs.errf(file, rc.line, "bad guarded directive %q", rc.text)
+				continue
+			}
+			if cs.Guards == nil {
+				cs.Guards = map[string]string{}
+			}
+			cs.Guards[pkgPath+"."+f[0]] = f[2]
+			cur = nil
 		case "typeinv":
 			m := typeinvHdr.FindStringSubmatch(rc.text)
 			if m == nil {
